@@ -39,6 +39,11 @@ CHECKS = [
         "4-node graphs are sampled by simulation in the quick tier and enumerated in the thorough tier; cycles through parameters are not expressible with well-sorted contributions and are not generated.",
         "TLA+ implementation-shaped model vs declarative SCC oracle, model checked by TLC under nondeterministic iteration order; spec->code replay on the graph API and on rendered block programs",
         "DESIGN.md §4 C08"),
+    chk("C10", "model_checking",
+        "spec/ZyFrontend.tla enumerates every sequence over the full 75-lexeme vocabulary of the surface language (every keyword, punctuation, literal kind, comment marker, annotation marker, unknown characters) up to length 2 (thorough 3) and over a 16-lexeme core vocabulary up to length 4 (thorough 5), with the set of legal outcomes {success, diagnostic} as the only allowed states. Each sequence is rendered with two spacings and pushed through the real pipeline in-process (lex, parse, desugar, resolve, check, coverage, report rendering with source snippets): the outcome must be success or a diagnostic whose spans lie inside the source, never a panic, hang (step watchdog) or empty failure. Token-level mutants of every repository source (delete, duplicate, swap, replace by a vocabulary lexeme; thorough 50 per file) and random byte/UTF-8 soups go the same way. The recorded outcome trace is validated by TLC (spec/ZyFrontendTrace.tla). The CLI is bound on regression scenarios and a seeded subsample: exit status 0 or 1 with non-empty stderr, never 101 or a signal.",
+        "Exhaustive only over short lexeme sequences; deep nesting is reached through corpus mutants. Five front-end panics were found and repaired by fix: commits (F2, F3, F12, F18 and the fallible literal actions); one known finding (F16: CLI observation printing).",
+        "TLA+ outcome model; TLC-enumerated lexeme sequences and corpus token mutants replayed through the real in-process pipeline and the CLI; outcome trace validated by TLC",
+        "DESIGN.md §4 C10"),
     chk("C11", "model_checking",
         "spec/ZyLexer.tla models the parser-facing lexer over token classes (code, `/-`, `-/`, line comment swallowing markers, opaque string, unknown character); TLC checks NoSilentTruncation for every class string up to the bound and that the machine agrees with an independent reading of comment nesting. Every string is concretised and fed to the real Lexer and parser: token stream equal to the model's emitted positions, must-reject inputs rejected, regular inputs accepted with a root span covering first to last code token. Every repository source followed by 11 kinds of irregular junk must be rejected (5 comment-only suffixes accepted); `zydeco check|fmt|fmt --check` are bound on a subsample (failure status, file untouched).",
         "Class strings up to length 5 (thorough 7); `Code` is concretised as an identifier so that every prefix is a complete term (the dangerous case). The pinned lexer violated the property (F4, F5) and was repaired by a fix: commit.",
